@@ -242,6 +242,53 @@ def run_config(tm, lib, cfg, ops, out):
                 r["exc"], r["obs"] = type(e).__name__ + ":" + str(e)[:60], observe_dummy()
             out.append(r)
             rec("source_after_add", lambda: s)
+        elif kind == "append3":
+            cfgs3 = [cfg, op[1], op[2]]
+            scenes3 = [s] + [build(tm, lib, c_)[0] for c_ in cfgs3[1:]]
+            merged = {"parent": [], "edge": [], "geom": [], "gnames": []}
+            for c_ in cfgs3:
+                n0, g0 = len(merged["parent"]), len(merged["gnames"])
+                merged["parent"] += [p_ + n0 if p_ else 0 for p_ in c_["parent"]]
+                merged["edge"] += c_["edge"]
+                merged["geom"] += [g_ + g0 if g_ else 0 for g_ in c_["geom"]]
+                merged["gnames"] += c_["gnames"]
+            cl3, ar3 = flags(merged, lib)
+            r = {"op": "append3", "cfg": spec_cfg(merged), "geoms": spec_geoms(lib, merged["gnames"]), "m": IDM, "sub": 0, "exc": "",
+                 "desc": {"parent": merged["parent"], "geom": merged["geom"], "gnames": merged["gnames"]}}
+            try:
+                from trimesh.scene.scene import append_scenes
+                r["obs"] = observe(append_scenes(scenes3), closed_only=cl3, area_ok=ar3)
+            except OffLattice as e:
+                r["exc"], r["obs"] = "offlattice:" + str(e), observe_dummy()
+            except BaseException as e:  # noqa
+                r["exc"], r["obs"] = type(e).__name__ + ":" + str(e)[:60], observe_dummy()
+            out.append(r)
+        elif kind == "copy_edit":
+            # edit the COPY in every way the API offers, then re-measure the source through a cold route
+            observe(s, closed_only=closed, area_ok=area_ok)
+            c_ = s.copy()
+            how = op[1]
+            try:
+                if how == "delete_geometry":
+                    c_.delete_geometry(cfg["gnames"][0])
+                elif how == "edit_geometry":
+                    for g_ in c_.geometry.values():
+                        g_.vertices[0] += 3.0
+                elif how == "update_edge":
+                    for n_ in list(c_.graph.nodes_geometry):
+                        c_.graph.update(frame_to=n_, matrix=to4(GENS[3]))
+                elif how == "scaled_per_axis":
+                    s.scaled([1, 2, 3])
+                elif how == "scaled":
+                    s.scaled(2.0)
+                elif how == "subscene_delete":
+                    sub_ = s.subscene(names[0])
+                    for n_ in list(sub_.graph.nodes_geometry):
+                        sub_.graph.update(frame_to=n_, matrix=to4(GENS[5]))
+            except BaseException:
+                pass
+            rec("source_cold_after_" + how, lambda: s.copy())
+            rec("source_warm_after_" + how, lambda: s)
         elif kind == "edit_geometry":
             # warm caches, edit a vertex of a (possibly shared) geometry in place, read again
             observe(s, closed_only=closed, area_ok=area_ok)
@@ -406,6 +453,21 @@ def configs(tier, rs):
     return out
 
 
+def big_configs(rs, count):
+    """Wide-then-deep forests (a chain attached before several leaf siblings) for subscene / successors."""
+    out = []
+    shapes = [[0, 1, 2, 3, 1, 1, 1, 1, 1], [0, 1, 2, 3, 4, 0, 0, 0, 0, 0], [0, 1, 1, 2, 4, 5, 1, 1, 1, 1, 1], [0, 0, 0, 3, 4, 5, 0, 0, 0, 0]]
+    for k in range(count):
+        shape = shapes[k % len(shapes)]
+        n = len(shape)
+        geom = [int(rs.randint(0, 3)) for _ in range(n)]
+        geom[3] = 1
+        geom[-1] = 2
+        edges = [GENS[rs.randint(len(GENS))] if rs.randint(3) else GENS[0] for _ in range(n)]
+        out.append({"parent": shape, "edge": edges, "geom": geom, "gnames": ["box", "tet"]})
+    return out
+
+
 def main(argv):
     tier = tier_from_args(argv)
     V = Verdict(PROP, tier)
@@ -418,8 +480,13 @@ def main(argv):
         other = cfgs[(ci * 7 + 3) % len(cfgs)]
         ops = [("read",), ("copy",), ("scaled", 2), ("scaled", [2, 2, 2]), ("scaled", [1, 2, 3]), ("apply_transform", 1 + ci % (len(GENS) - 1)),
                ("rezero",), ("to_mesh",), ("dump",), ("subscene", 1 + ci % n), ("add", other),
-               ("edit_geometry", cfg["gnames"][ci % len(cfg["gnames"])]), ("edit_edge", 1 + (ci // 2) % n, (ci * 3) % len(GENS))]
+               ("edit_geometry", cfg["gnames"][ci % len(cfg["gnames"])]), ("edit_edge", 1 + (ci // 2) % n, (ci * 3) % len(GENS)),
+               ("append3", other, cfgs[(ci * 11 + 5) % len(cfgs)]),
+               ("copy_edit", ["delete_geometry", "edit_geometry", "update_edge", "scaled_per_axis", "scaled", "subscene_delete"][ci % 6])]
         work.append((cfg, ops))
+    for k, cfg in enumerate(big_configs(rs, 24 if tier == "quick" else 200)):
+        n = len(cfg["parent"])
+        work.append((cfg, [("read",), ("subscene", 1), ("subscene", 1 + k % n), ("subscene", 1 + (k * 5) % n), ("to_mesh",), ("copy",)]))
     res = pmap(_chunk, work, chunk=8)
     cases = [c for r in res for c in r]
     for k, c in enumerate(cases):
